@@ -402,16 +402,20 @@ pub struct Exec {
     pub world: Shared,
     pub tasks: Vec<Task>,
     pub step_cap: u64,
+    /// Optional budget for the next `run` call (C13 interleaves connection steps with runner operations).
+    pub budget: Option<u64>,
 }
 
 pub enum RunEnd {
     Quiescent,
     StepCap,
+    /// The step budget given to this call of `run` is used up (more events are enabled).
+    Paused,
 }
 
 impl Exec {
     pub fn new(world: Shared) -> Exec {
-        Exec { world, tasks: Vec::new(), step_cap: 400_000 }
+        Exec { world, tasks: Vec::new(), step_cap: 400_000, budget: None }
     }
 
     pub fn poll_task(&mut self, i: usize) {
@@ -507,6 +511,10 @@ impl Exec {
             for c in ctl { evs.push(Ev::Control(c)); }
             if evs.is_empty() {
                 return RunEnd::Quiescent;
+            }
+            if let Some(b) = &mut self.budget {
+                if *b == 0 { return RunEnd::Paused; }
+                *b -= 1;
             }
             let (spur, pick) = {
                 let mut w = lock(&self.world);
